@@ -172,10 +172,21 @@ def run_builder_case(rng, acc):
             if need not in cols and rng.random() < 0.7:
                 cols.append(need)
         df = pd.DataFrame({c: [1, 2] for c in cols})
+        seg = None
+        if rng.random() < 0.35:
+            # the dialog already knows the label image (2-D+t or 3-D+t) when it prepares
+            import numpy as np
+
+            seg = np.zeros((2, 4, 4) if rng.random() < 0.6 else (2, 2, 4, 4), dtype=np.int32)
+            seg[0].flat[0] = 1
+            seg[1].flat[0] = 2
         try:
             with warnings.catch_warnings():
                 warnings.simplefilter("ignore")
-                b.prepare(df)
+                if seg is None:
+                    b.prepare(df)
+                else:
+                    b.prepare(df, seg)
         except PostBroken:
             return  # the contract clauses on the functions report that themselves
         except Exception:
